@@ -18,6 +18,16 @@ fn all_vectors<T: Copy>(alpha: &[T], maxlen: usize) -> Vec<Vec<T>> {
         layer = next;
     }
     out.push((0..33).map(|i| alpha[(i * 7) % alpha.len()]).collect());
+    // the same values in larger allocations (spare capacity, reuse after clear)
+    let extra: Vec<Vec<T>> = out
+        .iter()
+        .map(|v| {
+            let mut a: Vec<T> = Vec::with_capacity(v.len() + 3);
+            a.extend_from_slice(v);
+            a
+        })
+        .collect();
+    out.extend(extra);
     out
 }
 
